@@ -102,6 +102,9 @@ Spec == Init /\ [][Next]_tv
 GeosQuick    == { <<16, 16>>, <<4, 1>>, <<4, 16>> }          \* <<4,16>>: Cm > l -- a yaw demand beyond its range limit is still achievable
 GeosThorough == { <<16, 16>>, <<4, 1>>, <<8, 2>>, <<16, 1>>, <<4, 16>>, <<8, 16>> }
 
+(* "range-limited": a thrust demand outside [0, 4 F_max] gives what its nearest limit gives, however far outside it is
+   (the harness re-evaluates such vectors with the demand multiplied by 1e6 .. 1e300) *)
+RangeLimited == tv.fn # "seed" => Oracle(tv.FM, tv.geo, tv.t, tv.m) = Oracle(tv.FM, tv.geo, TSat(tv.FM, tv.t), tv.m)
 Refinement == tv.fn # "seed" => ImplRefinesOracle(tv.FM, tv.geo, tv.t, tv.m)
 Sound      == tv.fn # "seed" => OracleSound(tv.FM, tv.geo, tv.t, tv.m)
 =============================================================================
